@@ -56,6 +56,19 @@ def _observe(case):
         add("line_wrap_to_width", r.split("\n") if r else [], True)
     except Exception as e:
         obs.append({"fn": "line_wrap_to_width", "exc": repr(e)})
+    if ic > 0 and cid % 3 == 0:
+        # continuation of an existing line (initial_column > 0): the first line carries no indent text, whatever the number of lines;
+        # its length counts from initial_column + len(initial_indent), as wrap_paragraph passes it on
+        col = 5
+        try:
+            r = wrap_paragraph(text, width, initial_indent=ii, subsequent_indent=si, initial_column=col, is_markdown=md)
+            a = vocab.abstract_lines(toks, r.split("\n") if r else [], "", si, True)
+            if a["linelen"]:
+                a["linelen"][0] += col + ic
+            a["fn"], a["raw"], a["virtual_ic"] = "wrap_paragraph(initial_column=5)", r.split("\n") if r else [], col + ic
+            obs.append(a)
+        except Exception as e:
+            obs.append({"fn": "wrap_paragraph(initial_column=5)", "exc": repr(e)})
     return cid, toks, obs
 
 
@@ -371,14 +384,14 @@ def run(tier: str) -> int:
                 if "exc" in a:
                     chk.violation("NoException", dict(fn=a["fn"], exc=a["exc"], text=" ".join(toks), width=width, ic=ic, so=so))
                     continue
-                key = json.dumps([a["ok"], a["out"], a["linelen"], a["ind"]])
+                key = json.dumps([a["ok"], a["out"], a["linelen"], a["ind"], a.get("virtual_ic")])
                 if key in seen:
                     meta[seen[key]]["fn"] += "," + a["fn"]
                     continue
                 tid += 1
                 seen[key] = tid
-                traces.append(_mk_trace(tid, words, width, ic, so, md, a))
-                meta[tid] = dict(fn=a["fn"], impl="wrap", text=" ".join(toks), width=width, ic=ic, so=so, md=md,
+                traces.append(_mk_trace(tid, words, width, a.get("virtual_ic", ic), so, md, a, impl="wrap" if "virtual_ic" not in a else "none"))
+                meta[tid] = dict(fn=a["fn"], impl="wrap" if "virtual_ic" not in a else "none", text=" ".join(toks), width=width, ic=a.get("virtual_ic", ic), so=so, md=md,
                                  output=a["raw"], model_lines=mlines)
                 if len(a["out"]) > 1 or any(t["e"] for l in a["out"] for t in l):
                     chk.nontriv(("w", cid, key))
